@@ -3,7 +3,7 @@ SPEC = {
     "props_module": "NDB.Props.C26",
     "corr_modules": ["NDB.Corr.C26", "NDB.Corr.C26bs"],
     "theorems": ["C26_refuted_delete", "C26_refuted_lookup", "C26_refuted_insert",
-                 "C26_delete_exact", "C26_cursor_chain_partial", "C26_insert_fits_exact_partial", "C26_single_leaf_partial", "C26_single_leaf_dups_partial", "C26_leaf_insert_partial", "C26_leaf_delete_partial", "C26_leaf_split_partial",
+                 "C26_delete_exact", "C26_cursor_chain_partial", "C26_insert_fits_exact_partial", "C26_invariant_chain_partial", "C26_single_leaf_partial", "C26_single_leaf_dups_partial", "C26_leaf_insert_partial", "C26_leaf_delete_partial", "C26_leaf_split_partial",
                  "C26_descent_partial", "C26_binary_search_partial", "C26_dups_delete_general"],
     "allowed_axioms": [],
     "harness_pkg": "hx_btree",
